@@ -18,6 +18,16 @@ Theorem T2_doc_sem_block_wf : forall p b ds, doc_sem_block p b = Ok ds ->
 Proof. exact doc_sem_block_wf. Qed.
 Print Assumptions T2_doc_sem_block_wf.
 
+Theorem T2_doc_sem_levels : forall p ds, doc_sem p = Ok ds ->
+  forall k, In k (s_constraints (ds_sem ds)) -> level_ok (ds_sem ds) k.
+Proof. exact doc_sem_levels. Qed.
+Print Assumptions T2_doc_sem_levels.
+
+Theorem T2_doc_sem_sustain_pos : forall p ds, doc_sem p = Ok ds ->
+  forall fd, In fd (s_factors (ds_sem ds)) -> 0 < f_sustain fd.
+Proof. exact doc_sem_sustain_pos. Qed.
+Print Assumptions T2_doc_sem_sustain_pos.
+
 (** (b) CrossBlock(d, c, cs, rcc) = MultiCrossBlock(d, [c], cs, rcc, WEIGHT) *)
 Theorem T2_cross_is_multi_weight : forall p d c cs rcc,
   doc_sem_block p (PCross d c cs rcc) = doc_sem_block p (PMulti d [c] cs rcc DWeight EqualPreamble).
